@@ -220,9 +220,12 @@ class Tracer:
                 for t in self.open_files:
                     buf = bytes(self.shadow.get(t.name) or b"")
                     if snap["mode"] == "torn" and t is tf:
-                        raw = bytes(data) if t.binary else str(data).encode(getattr(t.f, "encoding", None) or "utf-8")
-                        n = len(raw)
-                        buf += raw[:min(n - 1, max(0, int(n * snap["frac"]))) if n > 0 else 0]
+                        # the same strict prefix the torn crash hands to the file object (bytes in
+                        # binary mode, characters in text mode)
+                        piece = bytes(data) if t.binary else str(data)
+                        n = len(piece)
+                        piece = piece[:min(n - 1, max(0, int(n * snap["frac"]))) if n > 0 else 0]
+                        buf += piece if t.binary else piece.encode(getattr(t.f, "encoding", None) or "utf-8")
                     with self.orig["open"](os.path.join(dest, t.name), "wb") as f:
                         f.write(buf)
         finally:
